@@ -284,10 +284,20 @@ func runInflightConnection(res *lp.Result) {
 					}
 				}
 			})
+			answered := 0
 			for _, r := range reqs {
-				within(3*time.Second, func() { cc.Receive(r) })
+				r := r
+				var got *frame.Frame
+				if within(3*time.Second, func() { got, _ = cc.Receive(r) }) && got != nil {
+					answered++
+				}
 			}
-			for k := 0; k < n; k++ {
+			if answered < n {
+				// (the peer of this harness did not get all answers through in time — a slow machine, or requests the connection lost on
+				// the way, which is C15's business: the recycling clause is judged only when everything WAS answered)
+				res.Count("connection/limits-not-all-answered")
+			}
+			for k := 0; k < n && answered == n; k++ {
 				if _, err := cc.Send(request()); err != nil {
 					res.Add(lp.Finding{Kind: "violation", What: "after all requests are answered fewer than N new ones can be sent", Input: id,
 						Impl: fmt.Sprintf("send %d of %d: %v", k+1, n, firstWords(err.Error()))})
